@@ -120,6 +120,10 @@ def expected_table(a, b):
         return table((da > db) - (da < db))
     if ka == kb == 'blank':
         return table(0)
+    if ka == kb == 'text' and a == b:
+        # the laws decide this one: a<a exactly when a>a, and exactly one of < = > holds, so a text equals the text that is
+        # spelt the same - wherever the two operands come from (a cell, an override, a literal)
+        return table(0)
     if ka == 'blank' or kb == 'blank':
         v, kv = (b, kb) if ka == 'blank' else (a, ka)
         c = None
